@@ -40,6 +40,7 @@ Proof.
   unfold define. destruct (negb (is_kind KIdent name)); [discriminate|].
   destruct (scan l) as [t0 l1].
   match goal with |- match ?h with _ => _ end = _ -> _ => destruct h as [[[[func ps] t1] l0]| |] end; try discriminate.
+  destruct (is_kind KIdent t1 && str_eqb (lit t1) s_vaargs && negb (macrovarargs func ps)); [discriminate|].
   destruct (body_loop func l0 t1 ps (macroparam ps t1) []) as [[[[ps' body] tend] rest]| |]; try discriminate.
   assert (P : no_new_hidden tb (tbl_put tb (lit name) (mkMacro func (lit name) false ps' [] body))).
   { intros n m' G H. rewrite macroget_put in G. destruct (str_eqb (lit name) n).
